@@ -251,3 +251,229 @@ Proof.
   destruct KF as [G3 P3]. split; [exact G3|]. rewrite zlen_iota in P3.
   unfold Phi in *. cbn [w_dst w_set_dst w_src_rl] in P3. rewrite T1 in P3. lia.
 Qed.
+
+Lemma aptr_step c fx f : A_fill c fx f -> A_list c fx f -> A_ptr c fx (S f).
+Proof.
+  intros IHf IHl w sid p Hd Hm Hr Hsid Hp Hsh. rewrite canonical_ptr_S.
+  destruct (p_valid p) eqn:V; cbn [negb].
+  2:{ cbn [kpostpk]. split; [apply wgood_refl; assumption|]. split; [apply cp_ok_null|]. unfold pcost. rewrite V. lia. }
+  destruct (p_kind p) eqn:K; [| |exact I].
+  - assert (wf_struct (w_src w) p) as Hs by (split; [assumption|intros _; assumption]).
+    pose proof (canonicalStructSize_safe (cx_farnull fx) (cfg_strict c) (w_src w) p Hm Hs) as CS.
+    pose proof (canonicalStructSize_le (cx_farnull fx) (cfg_strict c) (w_src w) p Hm Hs) as CL.
+    destruct (canonicalStructSize _ _ _ p) as [sz| |]; cbn [of_res kbind res_sat] in *; [|exact I|exact CS].
+    pose proof (newStruct_safe (w_dst w) sid sz Hd Hsid CS) as NS.
+    pose proof (newStruct_tot (w_dst w) sid sz) as NT.
+    destruct (newStruct (w_dst w) sid sz) as [[m1 ss]| |]; cbn [lift bind of_res kbind]; [|exact I|exact NS].
+    destruct NS as (D1 & G1 & Do1 & Cp1 & K1 & _). destruct (NT m1 ss Hd Hsid CS eq_refl) as [T1 Ess].
+    assert (wgood w (w_set_dst w m1)) as Gw1 by (apply wgood_set_dst; auto).
+    pose proof (IHf (w_set_dst w m1) ss p D1 Hm Hr Do1 Hs V) as FC.
+    destruct (fill_canonical c fx f (w_set_dst w m1) ss p) as [w2| | |]; cbn [kbind kpostwk kpostpk] in *;
+      [|exact I|exact FC|exact I].
+    destruct FC as [FC P2]. split; [eapply wgood_trans; eassumption|]. split.
+    { destruct FC as (_ & G2 & _). cbn [w_dst w_set_dst] in G2. eapply cp_ok_grows; eassumption. }
+    destruct CL as (C1 & C2 & C3 & C4 & _). specialize (C4 V).
+    destruct (wf_struct_inv _ p Hs V) as (_ & Hz & _).
+    unfold pcost, readSize, slots, struct_readSize. rewrite V, K. rewrite (totalSize_wf _ Hz).
+    rewrite Ess in P2. cbn [PointerCount] in P2. unfold Phi in *. cbn [w_dst w_set_dst w_src_rl] in P2.
+    rewrite padToWord_id in T1 by (unfold wf_size in Hz; lia). lia.
+  - pose proof (IHl w sid p Hd Hm Hr Hsid (conj Hp (fun _ => K)) Hsh) as L. exact L.
+Qed.
+
+(* what a list costs to read covers its content *)
+Lemma list_content_le m l : msg_ok m -> wf_list m l -> p_valid l = true -> shape_ok l ->
+  (if p_bit l then (p_len l + 7) / 8 else p_len l * totalSize (p_size l)) + (if p_comp l then 8 else 0)
+  <= readSize l + 8.
+Proof.
+  intros Hm Hw V Hsh. destruct (list_alloc_facts m l Hm Hw V Hsh) as [_ H].
+  unfold readSize. rewrite (proj2 Hw V).
+  destruct (wf_list_inv m l Hw V) as (Hs & Ho & Hl & Hr). destruct (seg_of_ok m l Hm) as [Hsl _].
+  unfold list_allocSize in H. rewrite V in H. cbn [negb] in H. cbv zeta in H.
+  pose proof (Hsh V) as Hs'. rewrite (proj2 Hw V) in Hs'.
+  destruct (p_bit l) eqn:B.
+  - rewrite bitListSize_spec in H by lia. destruct (p_comp l); [destruct Hs' as (_ & _ & X); discriminate X|lia].
+  - destruct Hr as [Hz Hr]. pose proof (totalSize_bound _ Hz).
+    rewrite times_some in H by (unfold maxSegmentSize in *; nia).
+    destruct (p_comp l); cbn [negb] in H; [|lia]. destruct Hs' as (H8 & _). unfold maxSegmentSize in *.
+    rewrite u32_id in H by nia. lia.
+Qed.
+
+Lemma alist_step c fx f : cfg_strict c = true -> cx_complist fx = true ->
+  A_ptr c fx f -> A_fill c fx f -> A_list c fx (S f).
+Proof.
+  intros Hc Hcl IHp IHf w sid l Hd Hm Hr Hsid Hl Hsh. rewrite canonical_list_S.
+  destruct (p_valid l) eqn:V; cbn [negb].
+  2:{ cbn [kpostpk]. split; [apply wgood_refl; assumption|]. split; [apply cp_ok_null|]. unfold pcost. rewrite V. lia. }
+  destruct (wf_list_inv _ l Hl V) as (Hsg & Ho & Hln & Hr'). pose proof (proj2 Hl V) as K.
+  pose proof (Hsh V) as Hsh'. rewrite K in Hsh'.
+  pose proof (list_content_le _ l Hm Hl V Hsh) as Hcont.
+  assert (pcost l = readSize l + 15 + 32 * (if p_bit l then 0 else p_len l * PointerCount (p_size l))) as Epc
+    by (unfold pcost, slots; rewrite V, K; reflexivity).
+  destruct (seg_of_ok (w_src w) l Hm) as [Hsl _]. unfold maxSegmentSize in Hsl.
+  rewrite Hcl. cbn [andb].
+  destruct ((PointerCount (p_size l) =? 0) && negb (p_comp l)) eqn:Edata.
+  - (* data only *)
+    assert (p_comp l = false) as C by (destruct (p_comp l); [rewrite Bool.andb_false_r in Edata; discriminate|reflexivity]).
+    cbv zeta. unfold src_seg.
+    set (content := if p_bit l then (p_len l + 7) / 8 else p_len l * totalSize (p_size l)) in *.
+    assert (0 <= content /\ p_off l + content <= zlen (seg_of (w_src w) l)) as [Hc0 Hc1].
+    { unfold content. destruct (p_bit l); [lia|]. destruct Hr' as [Hz Hr']. pose proof (totalSize_bound _ Hz). split; [nia|lia]. }
+    assert (list_allocSize l = content) as Hsz.
+    { unfold list_allocSize, content. rewrite V, C. cbn [negb]. destruct (p_bit l) eqn:B; [apply bitListSize_spec; lia|].
+      destruct Hr' as [Hz Hr']. pose proof (totalSize_bound _ Hz).
+      rewrite times_some by (unfold maxSegmentSize; nia). lia. }
+    rewrite Hsz.
+    pose proof (alloc_nopanic (w_dst w) sid content) as NP.
+    destruct (alloc (w_dst w) sid content) as [[[m1 nsid] naddr]| |] eqn:EA; cbn [of_res kbind]; [|exact I|congruence].
+    pose proof (alloc_tot (w_dst w) sid content m1 nsid naddr Hd Hsid Hc0 EA) as T1.
+    destruct (alloc_safe (w_dst w) sid content m1 nsid naddr Hd Hsid Hc0 EA) as (D1 & G1 & S1 & A0 & A1 & A2 & A3 & _).
+    rewrite slice_ok by lia. cbn [of_res kbind].
+    set (bs := if cx_bitpad fx && p_bit l then mask_last (p_len l) (sub (seg_of (w_src w) l) (p_off l) content)
+               else sub (seg_of (w_src w) l) (p_off l) content).
+    assert (zlen bs = content) as Lb.
+    { unfold bs. destruct (cx_bitpad fx && p_bit l); [unfold zlen; rewrite mask_last_length|];
+        apply sub_length; lia. }
+    assert (region_ok m1 nsid naddr (zlen bs)) as Rb by (unfold region_ok; lia).
+    destruct (seg_write_safe m1 nsid naddr bs D1 Rb) as (m2 & E2 & D2 & N2 & L2 & _).
+    pose proof (seg_write_tot _ _ _ _ _ D1 Rb E2) as T2. rewrite E2.
+    cbn [lift0 bind of_res kbind kpostpk w_set_dst w_dst].
+    split; [change (wgood w (w_set_dst w m2)); apply wgood_set_dst; auto;
+            eapply grows_trans; [exact G1|apply same_len_grows; auto]|].
+    split.
+    + intros _. cbn [p_seg p_member]. split; [rewrite N2; exact S1|]. split; [reflexivity|].
+      split; [|cbn [p_kind]; discriminate]. intros _. cbn [p_kind p_comp p_bit p_size]. rewrite C in *. exact Hsh'.
+    + unfold Phi. cbn [w_dst w_set_dst w_src_rl]. rewrite T2, T1. rewrite C in Hcont.
+      assert (0 <= content <= maxSegmentSize) as Hcm by (unfold maxSegmentSize; lia).
+      pose proof (padToWord_facts content Hcm).
+      assert (0 <= (if p_bit l then 0 else p_len l * PointerCount (p_size l))) as Hsl0.
+      { destruct (p_bit l); [lia|]. destruct Hr' as [[_ Hz] _]. nia. }
+      lia.
+  - destruct (p_comp l) eqn:C; cbn [negb].
+    + (* struct list *)
+      assert (p_bit l = false) as B by (destruct Hsh' as (_ & _ & X); exact X).
+      rewrite B in *. destruct Hr' as [Hz Hr']. destruct Hsh' as (H8 & HD8 & _).
+      pose proof (elem_size_safe (cx_farnull fx) (cfg_strict c) (fx_depth (cx_rd fx)) (w_src w) l Hm Hl
+                    (Z.to_nat (list_len l)) 0 (mkOS 0 0) ltac:(lia)
+                    ltac:(unfold list_len; rewrite V; lia) ltac:(unfold csz_ok; cbn; lia)) as ES.
+      pose proof (elem_size_le (cx_farnull fx) (cfg_strict c) (fx_depth (cx_rd fx)) (w_src w) l Hm Hl V B
+                    (Z.to_nat (list_len l)) 0 (mkOS 0 0) ltac:(lia)
+                    ltac:(unfold list_len; rewrite V; lia)
+                    ltac:(unfold esz_le, wf_size in *; cbn [DataSize PointerCount]; lia)) as EL.
+      destruct (elem_size _ _ _ _ l _ 0 _) as [esz| |]; cbn [of_res kbind res_sat] in *; [|exact I|exact ES].
+      pose proof (newCompositeList_safe (w_dst w) sid esz (p_len l) Hd Hsid ES) as NC.
+      pose proof (newCompositeList_tot (w_dst w) sid esz (p_len l)) as NT.
+      destruct (newCompositeList (w_dst w) sid esz (p_len l)) as [[m1 cl]| |]; cbn [lift bind of_res kbind];
+        [|exact I|exact NC].
+      destruct NC as (D1 & G1 & Hn0 & Hwc & Rc & Cp1 & Ecl & _).
+      destruct (NT m1 cl Hd Hsid ES eq_refl) as [T1 Esz].
+      assert (wgood w (w_set_dst w m1)) as Gw1 by (apply wgood_set_dst; auto).
+      assert (list_len cl = p_len l) as Lcl by (rewrite Ecl; reflexivity).
+      rewrite Lcl.
+      pose proof (kfold_postk (wgood (w_set_dst w m1)) Phi (32 * PointerCount (p_size cl))
+        (fun wa i => kbind (of_res (list_struct (fx_depth (cx_rd fx)) cl i)) (fun de =>
+                     kbind (of_res (list_struct (fx_depth (cx_rd fx)) l i)) (fun se => fill_canonical c fx f wa de se)))
+        (iota (Z.to_nat (p_len l))) (w_set_dst w m1)) as KF.
+      match type of KF with ?A -> ?B -> ?C => assert A as HA end.
+      { intros i wa Hi Ga. apply in_iota in Hi. pose proof Ga as (Da & Gra & Sa & Ra).
+        pose proof (totalSize_bound _ Hwc) as Htc. pose proof (totalSize_wf _ Hwc) as Etc.
+        assert (i * totalSize (p_size cl) + totalSize (p_size cl) <= p_len l * totalSize (p_size cl)) as Hie by nia.
+        assert (0 <= i * totalSize (p_size cl)) as Hi0 by nia.
+        destruct D1 as [I1 Sm1]. pose proof (Sm1 (p_seg cl)) as Smn. destruct Rc as (Rc1 & Rc2 & Rc3).
+        assert (list_struct (fx_depth (cx_rd fx)) cl i =
+                Ok (mkPtr true (p_seg cl) (p_off cl + i * totalSize (p_size cl)) 0 (p_size cl)
+                          (if fx_depth (cx_rd fx) && (p_depth cl =? 0) then 0 else uint_dec (p_depth cl))
+                          KStruct false false true)) as ->.
+        { rewrite Ecl at 1. unfold list_struct. cbn [p_valid p_len p_bit p_off p_size p_seg p_depth negb orb].
+          destruct (i <? 0) eqn:E1; [lia|]. destruct (i >=? p_len l) eqn:E2; [lia|]. cbn [orb].
+          destruct (element _ _ _) eqn:E; [apply element_spec in E; destruct E as [-> _]|apply element_none in E; lia].
+          rewrite Ecl. reflexivity. }
+        cbn [of_res kbind].
+        pose proof (list_struct_safe (fx_depth (cx_rd fx)) (w_src w) l i Hm Hl ltac:(unfold list_len; rewrite V; lia)) as Hse.
+        assert (forall se, list_struct (fx_depth (cx_rd fx)) l i = Ok se -> p_valid se = true) as Vse.
+        { intros se. unfold list_struct. rewrite V, B. cbn [negb orb].
+          destruct (_ || _); [discriminate|]. destruct (element _ _ _) eqn:E.
+          - intros H; inversion H; reflexivity.
+          - exfalso. apply element_none in E. pose proof (totalSize_bound _ Hz).
+            assert (i * totalSize (p_size l) + totalSize (p_size l) <= p_len l * totalSize (p_size l)) by nia.
+            assert (0 <= i * totalSize (p_size l)) by nia. unfold maxSegmentSize in E. lia. }
+        destruct (list_struct (fx_depth (cx_rd fx)) l i) as [se| |]; cbn [of_res kbind res_sat] in *; [|exact I|exact Hse].
+        pose proof (IHf wa (mkPtr true (p_seg cl) (p_off cl + i * totalSize (p_size cl)) 0 (p_size cl)
+                                  (if fx_depth (cx_rd fx) && (p_depth cl =? 0) then 0 else uint_dec (p_depth cl))
+                                  KStruct false false true) se Da ltac:(rewrite Sa; exact Hm) ltac:(cbn [w_set_dst w_src_rl] in Ra; lia)) as FC.
+        specialize (FC ltac:(split; [reflexivity|]; split; [exact Hwc|]; cbn [p_seg p_off p_size];
+                             eapply region_grows; [exact Gra|]; cbn [w_dst w_set_dst]; unfold region_ok; rewrite <- Etc; lia)
+                       ltac:(rewrite Sa; exact Hse) (Vse se eq_refl)).
+        destruct (fill_canonical c fx f wa _ se) as [w'| | |]; cbn [kpostwk] in *; [|exact I|exact FC|exact I].
+        cbn [p_size] in FC. destruct FC as [Gc Pc]. split; [eapply wgood_trans; [exact Ga|exact Gc]|lia]. }
+      specialize (KF HA (wgood_refl (w_set_dst w m1) D1 Hr)). clear HA.
+      destruct (kfold _ _ _) as [w3| | |]; cbn [kbind kpostpk]; [|exact I|exact KF|exact I].
+      destruct KF as [KF P3]. split; [eapply wgood_trans; eassumption|]. split.
+      { destruct KF as (_ & G3 & _). cbn [w_dst w_set_dst] in G3. eapply cp_ok_grows; eassumption. }
+      rewrite zlen_iota in P3. rewrite Epc. rewrite Esz in P3. cbn [PointerCount] in P3.
+      destruct EL as ((E1 & E1') & E2 & (E3 & E3')). pose proof (totalSize_wf _ Hz) as Etl. unfold wf_size in Hz.
+      rewrite padToWord_id in T1 by lia.
+      unfold Phi in *. cbn [w_dst w_set_dst w_src_rl] in P3. rewrite Etl in Hcont. nia.
+    + (* pointer list *)
+      assert (p_bit l = false /\ p_size l = mkOS 0 1) as [B Esl].
+      { destruct (p_bit l) eqn:B.
+        - exfalso. destruct Hr' as [Hz _]. rewrite Hz in Edata. cbn in Edata. discriminate.
+        - split; [reflexivity|].
+          destruct Hsh' as [E|[E|[E|[E|[E|E]]]]]; rewrite E in Edata; cbn in Edata; try discriminate. exact E. }
+      rewrite B, Esl in *. change (totalSize (mkOS 0 1)) with 8 in *. cbn [PointerCount] in *.
+      pose proof (newPointerList_safe (w_dst w) sid (p_len l) Hd Hsid) as NP.
+      pose proof (newPointerList_tot (w_dst w) sid (p_len l)) as NT.
+      destruct (newPointerList (w_dst w) sid (p_len l)) as [[m1 cl]| |]; cbn [lift bind of_res kbind];
+        [|exact I|exact NP].
+      destruct NP as (D1 & G1 & Hn0 & Rc & Cp1 & Ecl & _). pose proof (NT m1 cl Hd Hsid eq_refl) as T1.
+      assert (wgood w (w_set_dst w m1)) as Gw1 by (apply wgood_set_dst; auto).
+      pose proof (kfold_postk (wgood (w_set_dst w m1)) Phi 32
+        (fun wa i =>
+           let '(r, rl') := ptrlist_at c (fx_upgrade (cx_rd fx)) (w_src wa) (w_src_rl wa) l i in
+           let wb := w_set_rl wa InSrc rl' in
+           kbind (of_res r) (fun p => kbind (canonical_ptr c fx f wb sid p) (fun wd =>
+           let '(w2, cp) := wd in of_res (ptrlist_set 4 w2 cl i InDst cp))))
+        (iota (Z.to_nat (list_len l))) (w_set_dst w m1)) as KF.
+      match type of KF with ?A -> ?B -> ?C => assert A as HA end.
+      { intros i wa Hi Ga. apply in_iota in Hi. pose proof Ga as (Da & Gra & Sa & Ra).
+        cbn [w_set_dst w_src w_src_rl] in Sa, Ra. rewrite Sa. cbv zeta.
+        assert (0 <= i < p_len l) as Hi' by (unfold list_len in Hi; rewrite V in Hi; lia).
+        pose proof (ptrlist_at_safe c (fx_upgrade (cx_rd fx)) (w_src w) (w_src_rl wa) l i Hm Hl
+                      ltac:(unfold list_len; rewrite V; lia)) as PS.
+        pose proof (ptrlist_at_charge c (fx_upgrade (cx_rd fx)) (w_src w) (w_src_rl wa) l i ltac:(lia)) as [PC PX].
+        assert (forall q, fst (ptrlist_at c (fx_upgrade (cx_rd fx)) (w_src w) (w_src_rl wa) l i) = Ok q -> shape_ok q) as SH.
+        { intros q. unfold ptrlist_at. destruct (primitiveElem _ _ _ _); try discriminate. apply readPtr_shape. }
+        destruct (ptrlist_at c (fx_upgrade (cx_rd fx)) (w_src w) (w_src_rl wa) l i) as [r rl']. cbn [fst snd] in *.
+        destruct r as [p| |]; cbn [of_res kbind res_sat] in *; [|exact I|exact PS].
+        pose proof (wgood_rl _ wa rl' Ga PC) as Gb. pose proof (PS Hc) as Wp.
+        pose proof (IHp (w_set_rl wa InSrc rl') sid p) as CP. cbn [w_set_rl w_dst w_src w_src_rl] in CP.
+        specialize (CP Da ltac:(rewrite Sa; exact Hm) ltac:(lia)
+                       ltac:(destruct Gra as [Gn _]; destruct G1 as [Gn1 _]; cbn [w_dst w_set_dst] in Gn; lia)
+                       ltac:(rewrite Sa; exact Wp) (SH p eq_refl)).
+        destruct (canonical_ptr c fx f _ sid p) as [[w2 cp]| | |]; cbn [kbind kpostpk] in *; [|exact I|exact CP|exact I].
+        destruct CP as (G2 & Cp & P2). pose proof (wgood_trans _ _ _ Gb G2) as Gw2. destruct Gw2 as (D2 & Gr2 & S2 & R2).
+        unfold ptrlist_set.
+        assert (primitiveElem true cl i (mkOS 0 1) = Ok (p_off cl + i * 8)) as ->.
+        { rewrite Ecl at 1. unfold primitiveElem.
+          cbn [p_valid p_len p_bit p_comp p_size p_off negb orb andb DataSize PointerCount].
+          destruct (i <? 0) eqn:E1; [lia|]. destruct (i >=? p_len l) eqn:E2; [lia|]. cbn [orb].
+          change (os_eqb (mkOS 0 1) (mkOS 0 1)) with true. cbn [negb orb andb].
+          change (totalSize (mkOS 0 1)) with 8.
+          destruct D1 as [I1 Sm1]. pose proof (Sm1 (p_seg cl)) as Smn. destruct Rc as (Rc1 & Rc2 & Rc3).
+          destruct (element _ _ _) eqn:E; [apply element_spec in E; destruct E as [-> _]|apply element_none in E; lia].
+          try rewrite Bool.andb_false_r. cbn [andb]. reflexivity. }
+        cbn [bind].
+        pose proof (write_ptr_nocopy_k 3 w2 (p_seg cl) (p_off cl + i * 8) cp D2 ltac:(lia)
+                      ltac:(eapply region_grows; [exact Gr2|]; cbn [w_dst w_set_dst];
+                            destruct Rc as (Rc1 & Rc2 & Rc3); unfold region_ok; lia) Cp) as WP.
+        destruct (write_ptr 4 true w2 (p_seg cl) (p_off cl + i * 8) InDst cp false) as [w3| |];
+          cbn [of_res rpostk] in *; [|exact I|exact WP].
+        destruct WP as [G3 P3]. split.
+        - eapply wgood_trans; [|exact G3]. split; [exact D2|]. split; [exact Gr2|]. split; [exact S2|exact R2].
+        - pose proof (slot_cost _ p _ _ Hm Wp (proj1 PC) PX). unfold Phi in *. cbn [w_dst w_src_rl] in P2. lia. }
+      specialize (KF HA (wgood_refl (w_set_dst w m1) D1 Hr)). clear HA.
+      destruct (kfold _ _ _) as [w3| | |]; cbn [kbind kpostpk]; [|exact I|exact KF|exact I].
+      destruct KF as [KF P3]. split; [eapply wgood_trans; eassumption|]. split.
+      { destruct KF as (_ & G3 & _). cbn [w_dst w_set_dst] in G3. eapply cp_ok_grows; eassumption. }
+      rewrite zlen_iota in P3. unfold list_len in P3. rewrite V in P3. rewrite Epc.
+      unfold Phi in *. cbn [w_dst w_set_dst w_src_rl] in P3. lia.
+Qed.
